@@ -10,6 +10,10 @@ import Operon.Model.Genome
   silence <id> <name> · activate <id> <name> · replicate <id> <inherit> <n:v,…|-> · express <id> <none|-|n,n,…> ·
   setallow <id> <0|1> · setcb <id> <cb|none> · setrate <id> <0|1>   (assignment to the public attributes
   allow_mutations / on_mutation / mutation_rate of a live genome) ·
+  poke <id> <name> <gene|getv|express|export>   in-place mutation (`.append(0)`) of the value OBJECT obtained through
+                                get_gene(n).value / get_value(n) / express({n: 1})[n] / export(); only the mutable
+                                value codes 200..299 denote objects that can be mutated; a value is printed as
+                                identity + 1000 * (number of in-place mutations so far) ·
   stats <id> (get_statistics) · getv <id> <name> · validate <id> · list <id> · diff <id> <id> · fromdict <allow> <cb|none> <rate> <n:v,…|->
   Every output line: the observation, then the full state of every genome (genes and expression sorted by
   name, log in order, hash class, parent-hash class).  Hash classes number the distinct canonical lists in
@@ -21,6 +25,8 @@ structure DSt where
   advSet : List (Nat × Option Nat) := []
   script : List Char := []
   seen : List (List (Nat × Nat)) := []
+  heap : List (Nat × Nat) := []      -- object identity ↦ number of in-place mutations
+  phash : List (Nat × Nat) := []     -- child ↦ class of the parent's hash when it was replicated
 
 def gtypeOf : String → Option GType
   | "s" => some .structural | "r" => some .regulatory | "h" => some .housekeeping
@@ -105,47 +111,54 @@ def mkEnv (st : DSt) : Env Nat :=
     veq := fun a b => a == b || ((a == 1 || a == 104 || a == 105) && (b == 1 || b == 104 || b == 105))
     isNone := fun v => v == 101 }
 
+/-- content of the object `r` as one number: identity + 1000 * in-place mutations -/
+def encOf (heap : List (Nat × Nat)) (r : Nat) : Nat :=
+  r + 1000 * ((heap.find? (·.1 == r)).map (·.2)).getD 0
+
 def classOf (seen : List (List (Nat × Nat))) (c : List (Nat × Nat)) : List (List (Nat × Nat)) × Nat :=
   match seen.findIdx? (· == c) with
   | some i => (seen, i)
   | none => (seen ++ [c], seen.length)
 
-def showGenome (seen : List (List (Nat × Nat))) (g : Genome Nat) : List (List (Nat × Nat)) × String :=
-  let (seen1, h) := classOf seen (canon g)
+def showGenome (enc : Nat → Nat) (ph : Option Nat) (seen : List (List (Nat × Nat))) (g : Genome Nat) :
+    List (List (Nat × Nat)) × String :=
+  let (seen1, h) := classOf seen (canonView enc g)
   let (seen2, p) :=
-    match g.parentHash with
-    | none => (seen1, "none")
-    | some c => let (s, i) := classOf seen1 c; (s, toString i)
+    match g.parentHash, ph with
+    | none, _ => (seen1, "none")
+    | some _, some i => (seen1, toString i)       -- recorded when the child was made (the parent's objects as they were then)
+    | some c, none => let (s, i) := classOf seen1 (c.map fun (q : Nat × Nat) => (q.1, enc q.2)); (s, toString i)
   let gs := (g.genes.mergeSort (fun a b => a.name ≤ b.name)).map fun x =>
-    s!"{x.name}={x.value}:{showGType x.gtype}:{showBool x.required}:{showLevel x.defExpr}"
+    s!"{x.name}={enc x.value}:{showGType x.gtype}:{showBool x.required}:{showLevel x.defExpr}"
   let es := (g.expr.mergeSort (fun a b => a.1 ≤ b.1)).map fun p => s!"{p.1}={showLevel p.2}"
-  let ls := g.log.map fun m => s!"{m.gene}:{m.orig}>{m.new}:{showReason m.reason}:{showBool m.approved}"
+  let ls := g.log.map fun m => s!"{m.gene}:{enc m.orig}>{enc m.new}:{showReason m.reason}:{showBool m.approved}"
   let cb := match g.cb with | none => "none" | some c => toString c
   (seen2, s!"a{showBool g.allow} c{cb} r{showBool g.rate} g{g.generation} G{showList gs} E{showList es} L{showList ls} H{h} P{p}")
 
 def showStore (st : DSt) : DSt × String :=
-  let (seen, strs) := st.store.genomes.foldl (fun (acc : List (List (Nat × Nat)) × List String) g =>
-    let (s, str) := showGenome acc.1 g
+  let enc := encOf st.heap
+  let (seen, strs) := st.store.genomes.zipIdx.foldl (fun (acc : List (List (Nat × Nat)) × List String) gi =>
+    let (s, str) := showGenome enc ((st.phash.find? (·.1 == gi.2)).map (·.2)) acc.1 gi.1
     (s, acc.2 ++ [str])) (st.seen, [])
   ({ st with seen := seen }, " | ".intercalate strs)
 
-def showObs : Obs Nat → String
+def showObs (enc : Nat → Nat) : Obs Nat → String
   | .created i => s!"created {i}"
   | .ret b => s!"ret {showBool b}"
   | .raised => "raise:RuntimeError"
   | .child i => s!"child {i}"
-  | .config c => "cfg " ++ showList ((c.mergeSort (fun a b => a.1 ≤ b.1)).map fun p => s!"{p.1}={p.2}")
+  | .config c => "cfg " ++ showList ((c.mergeSort (fun a b => a.1 ≤ b.1)).map fun p => s!"{p.1}={enc p.2}")
   | .value none => "val none"
-  | .value (some v) => s!"val {v}"
+  | .value (some v) => s!"val {enc v}"
   | .invalid [] => "valid"
   | .invalid l => s!"invalid {l.length}"
   | .listing l => "list " ++ showList ((l.mergeSort (fun a b => a.1 ≤ b.1)).map fun (n, v, t, lv, r) =>
       let ls := match lv with | some x => showLevel x | none => "?"
-      s!"{n}={v}:{showGType t}:{ls}:{showBool r}")
+      s!"{n}={enc v}:{showGType t}:{ls}:{showBool r}")
   | .assigned => "ok"
   | .statistics s => s!"stats n{s.total} g{s.generation} m{s.mutations} a{s.approved} T{showList (s.byType.map toString)} E{showList (s.byExpr.map toString)}"
   | .diffs d => "diff " ++ showList ((d.mergeSort (fun a b => a.1 ≤ b.1)).map fun (n, a, b) =>
-      let sh := fun (o : Option Nat) => match o with | some x => toString x | none => "none"
+      let sh := fun (o : Option Nat) => match o with | some x => toString (enc x) | none => "none"
       s!"{n}:{sh a}/{sh b}")
   | .bad => "bad"
 
@@ -182,8 +195,42 @@ def tagOf (st : DSt) (op : Op Nat) (o : Obs Nat) : String :=
 
 def exec (st : DSt) (op : Op Nat) : DSt × String :=
   let (s', o) := Genome.step (mkEnv st) st.store op
-  let (st', str) := showStore { st with store := s' }
-  (st', showObs o ++ " | " ++ str ++ " ## " ++ tagOf st op o)
+  -- a child remembers the parent's hash as it was when the child was made
+  let st1 : DSt :=
+    match op, o with
+    | .replicate i _ _, .child id =>
+      match st.store.genomes[i]? with
+      | some p =>
+        let (seen, c) := classOf st.seen (canonView (encOf st.heap) p)
+        { st with seen := seen, phash := st.phash ++ [(id, c)] }
+      | none => st
+    | _, _ => st
+  let (st', str) := showStore { st1 with store := s' }
+  (st', showObs (encOf st.heap) o ++ " | " ++ str ++ " ## " ++ tagOf st op o)
+
+/-- `poke`: the object the caller gets hold of through the named accessor (a reference of the model), if it is one
+    of the mutable objects 200..299 -/
+def handleOf (g : Genome Nat) (n : Nat) (via : String) : Option Nat :=
+  let r? : Option Nat :=
+    match via with
+    | "gene" => valueOf g n
+    | "export" => valueOf g n
+    | "getv" => getValue g n
+    | "express" => ((express g [n]).find? (·.1 == n)).map (·.2)
+    | _ => none
+  r?.bind fun r => if 200 ≤ r && r < 300 then some r else none
+
+def doPoke (st : DSt) (i n : Nat) (via : String) : DSt × String :=
+  match st.store.genomes[i]? with
+  | none => let (st', str) := showStore st; (st', "bad | " ++ str ++ " ## badid")
+  | some g =>
+    match handleOf g n via with
+    | none => let (st', str) := showStore st; (st', "poke none | " ++ str ++ " ## poke:none")
+    | some r =>
+      let cnt := ((st.heap.find? (·.1 == r)).map (·.2)).getD 0
+      let heap := (st.heap.filter (·.1 != r)) ++ [(r, cnt + 1)]
+      let (st', str) := showStore { st with heap := heap }
+      (st', s!"poked {r} | " ++ str ++ " ## poke:" ++ (if (st.store.genomes.filter (holds · r)).length > 1 then "shared" else "own"))
 
 def dstep (st : DSt) (toks : List String) : DSt × String :=
   match toks with
@@ -269,6 +316,11 @@ def dstep (st : DSt) (toks : List String) : DSt × String :=
         | some c => exec st (.assign i (.cb (some c)))
         | none => (st, "bad-op")
     | none => (st, "bad-op")
+  | ["poke", i, n, via] =>
+    match i.toNat?, n.toNat? with
+    | some i, some n =>
+      if via = "gene" || via = "getv" || via = "express" || via = "export" then doPoke st i n via else (st, "bad-op")
+    | _, _ => (st, "bad-op")
   | ["stats", i] =>
     match i.toNat? with
     | some i => exec st (.stats i)
